@@ -325,3 +325,17 @@ Example C10_ex_numbers :
   /\ wf_num (mk_num [49]%N None (Some (101, None, []))%N) = false
   /\ num_stop [32; 109]%N = true /\ num_stop [101; 53]%N = false /\ num_stop [46]%N = false.
 Proof. vm_compute. repeat split; reflexivity. Qed.
+
+(* identifiers: with ASCII letters as start and letters / digits as continue characters, `xy1` followed by
+   a blank is an Identifier, `let` is the keyword, a digit or `(` cannot start a word, and `x.` followed by
+   a non-identifier is not a legal stop *)
+Example C10_ex_identifiers :
+  let st := fun c : N => in_range 97 122 c in
+  let co := fun c : N => in_range 97 122 c || in_range 48 57 c in
+  early 120 = false /\ early 49 = true /\ early 40 = true
+  /\ is_identifier_start st 120 = true
+  /\ ident_stop st co [32]%N = true /\ ident_stop st co [46; 49]%N = false /\ ident_stop st co [46; 97]%N = true
+  /\ word_token [120; 121; 49]%N = TIdent [120; 121; 49]%N
+  /\ word_token [108; 101; 116]%N = TKw KLet
+  /\ scan_single_token st co 0 [120; 121; 49; 32; 43]%N = LOk (Some (TIdent [120; 121; 49]%N), [32; 43]%N, 0%nat).
+Proof. vm_compute. repeat split; reflexivity. Qed.
